@@ -250,6 +250,24 @@ func buildSchema(p *Pool) map[string][]Field {
 			schema[n.Pn] = fieldsOf(d)
 		})
 	}
+	// close under the alternatives of every field: a patch can create elements of
+	// types that occur in no pristine tree (a converted code, an added datatype)
+	for changed := true; changed; {
+		changed = false
+		for _, pn := range sortedKeys(schema) {
+			for _, f := range schema[pn] {
+				for _, a := range f.Alts {
+					if _, ok := schema[a.Pn]; ok {
+						continue
+					}
+					if d := descByPn(a.Pn); d != nil {
+						schema[a.Pn] = fieldsOf(d)
+						changed = true
+					}
+				}
+			}
+		}
+	}
 	// self-check: every child in every tree is explained by the schema of its parent
 	for _, name := range p.Names {
 		walk(p.Ann[name].Root, func(n *lib.Node) {
@@ -302,7 +320,7 @@ type donorRef struct {
 // donorIndex lists, per proto type, the nodes of the pristine trees whose
 // message can be cloned, donors first.
 func donorIndex(p *Pool) map[string][]donorRef {
-	order := []string{"D1", "D2", "M1", "MR4", "MR1", "MR2", "M2", "M0", "MR3"}
+	order := []string{"D1", "D2", "M1", "MR4", "MR1", "MR2", "M2", "M3", "M0", "MR3"}
 	idx := map[string][]donorRef{}
 	for _, name := range order {
 		a, ok := p.Ann[name]
